@@ -183,3 +183,30 @@ def plan_C03(tier, seed, q):
             "was observable fail with ErrShutdown in zero virtual time; a Call issued afterwards fails at once writing nothing",
             "jobs": jobs, "min_evaluations": 2000, "min_distinct": 1000, "parallel": 16, "assumptions": V_ASSUME + [
                 "quick enumerates every byte offset for one mode combination (chosen by the seed) and every 7th offset for the other eight; thorough enumerates all nine completely"]}
+
+
+def plan_C08(tier, seed, q):
+    jobs = []
+    for side in ("server", "client"):
+        for hdr in ("default", "pb", "code", "json"):
+            for mode in (0, 1, 2):
+                ex = {"side": side, "hdr": hdr, "mode": mode, "full": not q, "bursts": (250 if q else 4000) if side == "server" else 0}
+                jobs.append(Job("rt", "hostile", {"prop": "C08", "tier": tier, "seed": seed, "extra": ex}, timeout=1500 if q else 3300))
+    if not q:
+        for side in ("server", "client"):
+            for hdr in ("default", "code"):
+                ex = {"side": side, "hdr": hdr, "mode": 0, "full": False, "bursts": 600 if side == "server" else 0}
+                jobs.append(Job("rt-race", "hostile", {"prop": "C08", "tier": tier, "seed": seed + 1, "extra": ex}, timeout=3300))
+    return {"level": "fault_enumeration", "exhaustive": True,
+            "rule": "inputs are byte strings delivered as one frame to a real ServeCodec loop (server side) or to a real Conn with calls, a ping "
+                    "and an acknowledged stream outstanding (client side), per header encoder x I/O mode: a corpus of valid frames (every handler "
+                    "shape, ping, stream open/message/close for known and unknown ids, unknown/empty method, undecodable/empty/70 KB body), ALL 256 "
+                    "upgrade bytes x 4 method kinds x 3 body kinds, EVERY truncation of every corpus frame, every single-bit flip plus {00,7f,80,ff} "
+                    "at every position (thorough: all 255 other values for frames <= 64 B), seeded random frames and multi-byte mutations, and bursts "
+                    "of 1..64 well-formed requests followed at once by EOF/reset; each worker process logs an input before delivering it, the supervisor "
+                    "restarts it behind an input that kills it; probes on the same and on another connection must still be served; distinct = distinct "
+                    "(side, header, mode, family, corpus frame | upgrade byte)",
+            "jobs": jobs, "min_evaluations": 20000, "min_distinct": 200, "parallel": 12,
+            "assumptions": ["frames are delivered through socket.Messages (never raw stream garbage below the frame layer, whose length-prefix parser belongs to hslam/socket)",
+                            "handlers of the harness are total; corrupted harness payload headers are clamped so that a corrupted delay/size field cannot stall the worker",
+                            "poll-mode servers are exercised by the real-network engines, not here"]}
